@@ -118,6 +118,49 @@ def letter_variant(s, rng):
     return s + rng.choice(["a", "b", "rc1", "beta1"])
 
 
+VOCAB = {
+    "ebuild": ["_alpha", "_beta", "_pre", "_rc", "_p"], "alpine": ["_alpha", "_beta", "_pre", "_rc", "_p"],
+    "maven": ["alpha", "beta", "milestone", "rc", "snapshot", "ga", "final", "sp", "cr"],
+    "nuget": ["alpha", "beta", "rc", "cr", "final", "ga"],
+    "pypi": ["a", "b", "rc", ".post", ".dev"], "gem": ["a", "b", "rc", "pre", "beta"],
+    "openssl": ["-alpha", "-beta", "-pre"], "legacy_openssl": ["-alpha", "-beta", "-pre"],
+    "semver": ["alpha", "beta", "rc"], "golang": ["alpha", "beta", "rc", "incompatible", "build"],
+    "composer": ["alpha", "beta", "RC", "rc", "patch", "pl", "p", "dev", "stable"], "nginx": ["alpha", "beta", "rc"],
+    "conan": ["alpha", "beta", "rc", "pre"], "deb": ["~rc", "~beta", "+dfsg", "+b", "ubuntu"], "rpm": ["~rc", "^git", ".el", ".fc"],
+    "alpm": ["rc", "beta", "a", "b"],
+}
+
+
+def word_neighbours(name, s, rng):
+    """the same version with one qualifier word replaced by another word of the scheme's vocabulary (1.0_alpha1 /
+    1.0_rc1), and with the qualifier (and what follows it) cut off (1.1.0-beta1 / 1.1.0)"""
+    import re
+    words = VOCAB.get(name)
+    if not words:
+        return []
+    out = []
+    alts = sorted(words, key=len, reverse=True)
+    m = None
+    for w in alts:
+        for mm in re.finditer(re.escape(w), s):
+            # a word, not a piece of a longer word
+            if not (mm.start() > 0 and s[mm.start() - 1].isalpha() and w[0].isalpha()) and \
+                    not (mm.end() < len(s) and s[mm.end()].isalpha()):
+                m = mm
+                break
+        if m:
+            break
+    if not m:
+        return []
+    others = [w for w in words if w != m.group(0)]
+    for w in rng.sample(others, min(2, len(others))):
+        out.append(s[:m.start()] + w + s[m.end():])
+    cut = s[:m.start()].rstrip("-._~+^")
+    if cut:
+        out.append(cut)
+    return out
+
+
 def build_pool(name, rng, size=40, respell=0.3, need_hash=True):
     p = Pool(name, need_hash)
     tries = 0
@@ -157,6 +200,12 @@ def build_pool(name, rng, size=40, respell=0.3, need_hash=True):
                     p.insert(s5, S.make(name, s5))
             except Exception:  # noqa: BLE001
                 pass
+        if rng.random() < 0.5:
+            for s6 in word_neighbours(name, s, rng):
+                try:
+                    p.insert(s6, S.make(name, s6))
+                except Exception:  # noqa: BLE001
+                    pass
         if rng.random() < respell:
             # other spellings of the SAME version (up to two), found among a few respellings; a respelling that
             # turns out to be another version is inserted as such
